@@ -280,6 +280,12 @@ pub fn parse(l: &Lexed) -> PResult<File> {
         if c.is_kw("var") {
             return c.fail(false, "top-level var");
         }
+        // Go: TopLevelDecl = Declaration | FunctionDecl | MethodDecl, each introduced by a keyword
+        if let Some(t) = c.peek() {
+            if !(t.kind == crate::lex::TokKind::Ident && matches!(t.text.as_str(), "package" | "import" | "func" | "type" | "var" | "const")) {
+                return c.fail(true, format!("a top-level declaration cannot start with `{}`", t.text));
+            }
+        }
         return c.fail(false, "unrecognised top-level construct");
     }
     assemble(&mut f, funcs, const_blocks);
